@@ -63,7 +63,7 @@ def run_history(plan, plugins):
         ops.append({"kind": "a", "res": r, "calls": host.calls[mark:], "imports": host.import_log[imark:]})
         loaded = sorted(m for m in sys.modules if m.startswith(("udparsers.", "srcparsers.", "calloutparsers.")))
         # direct unit-level probe of the shipped I/O drawer plugin: always a JSON object
-        m2 = []
+        m2, m2f = [], []
         for p in plan["pels"]:
             for s in p["recipe"]["sections"]:
                 if s["kind"] in ("ud", "ed") and plug.ud_module(pelgen.section_creator(p["recipe"], s), s["comp"]) == "udparsers.m2c00.m2c00":
@@ -74,6 +74,21 @@ def run_history(plan, plugins):
                         m2.append((s, out, plug.m2c00_expectation(s)))
                     except Exception as e:      # noqa
                         m2.append((s, e, None))
+                        continue
+                    if s["subtype"] in (72, 73, 84) and s["ver"] in (1, 2):
+                        # environment fault: the drawer type's definition file cannot be opened (EIO / EMFILE)
+                        w.fs.begin_op(None, [{"on": "open_data", "nth": 0, "kind": "error", "errno": "EIO"}], None)
+                        w.fs.active = True
+                        try:
+                            try:
+                                out = mod.parseUDToJson(s["subtype"], s["ver"], memoryview(bytes.fromhex(s["payload"])))
+                            except Exception as e:      # noqa
+                                out = e
+                        finally:
+                            w.fs.active = False
+                        if w.fs.ev.fired:
+                            m2.append((s, out, ("error", bytes.fromhex(s["payload"]))))
+                            m2f.append(1)
         parse = plug.repo_hexdump_parse()
     return ops, loaded, m2, parse
 
@@ -162,7 +177,7 @@ def execute(plan):
                     any_fault = True
                 if e[2] in faulted_modules:
                     bump("same_module_after_fault")
-                if b in ("raise", "none", "importerror", "keyerror", "modulenotfound"):
+                if b in ("raise", "none", "importerror", "keyerror", "modulenotfound", "raise_noargs"):
                     faulted_modules.add(e[2])
                 if e[2].startswith("srcparsers.o") and e[2] != "srcparsers.osrc.osrc":
                     bump("osrc_subdispatch")
@@ -234,15 +249,15 @@ def execute(plan):
                         vio.append(V("fault-not-contained", "%s: SRC section %r of %s differs beyond 'SRC Details'/callout descriptions: %s vs %s" % (
                             r.argv, k, p["name"], _short(a), _short(b))))
                     srcb = [bh for e, bh in zip(calls_by_section.get(idx, []), behaviours) if e[2] == "parseSRCToJson"]
-                    if srcb and srcb[0] in ("raise", "none", "null", "empty", "importerror") and "SRC Details" in sec:
+                    if srcb and srcb[0] in ("raise", "none", "null", "empty", "importerror", "modulenotfound", "raise_noargs") and "SRC Details" in sec:
                         vio.append(V("src-details-from-failed-parser", "%s: section %r has SRC Details although its parser %s" % (r.argv, k, srcb[0])))
                 else:
                     b0 = behaviours[0] if behaviours else None
                     payload = bytes.fromhex(s["payload"])
-                    if b0 in ("raise", "none", "keyerror", "importerror", "modulenotfound") or import_failed:
+                    if b0 in ("raise", "none", "keyerror", "importerror", "modulenotfound", "raise_noargs") or import_failed:
                         if not plug.payload_recoverable(sec, payload, parse):
                             vio.append(V("failed-parser-no-hexdump", "%s: section %r (parser %s) carries no hex dump of its payload: %s" % (r.argv, k, b0 or state, _short(sec))))
-                        needs_note = b0 in ("raise", "none", "keyerror", "importerror", "modulenotfound")
+                        needs_note = b0 in ("raise", "none", "keyerror", "importerror", "modulenotfound", "raise_noargs")
                         if needs_note and not isinstance(sec.get("Error"), str):
                             vio.append(V("failed-parser-no-error-note", "%s: section %r: parser call %s but the section has no error note: %s" % (r.argv, k, b0, _short(sec))))
             tr.append("|")
